@@ -13,7 +13,7 @@ Definition ZN : numops Z :=
         (fun x e => if Qc_eqb e (Qc_of_Z 1) then x else 1)
         (fun _ => 1)
         (fun x => Z.eqb x 0) (fun _ => false) Z.eqb Z.leb
-        (fun x y => Some (Z.compare x y)).
+        (fun x y => Some (Z.compare x y)) Z.abs.
 
 Open Scope string_scope.
 (* one base unit "b" and a unit "a" = 3 b *)
